@@ -94,9 +94,27 @@ func genC02(r *Rand, tier string) []Case {
 	var out []Case
 	for i := 0; i < n; i++ {
 		t := genTable(r, 5)
+		if r.Chance(15) && len(t.rows) > 0 {
+			// rows with no or few keys: the projection of a kept row may be the empty object
+			k := r.Intn(len(t.rows))
+			t.rows[k] = map[string]any{}
+			if r.Bool() && len(t.rows) > 1 {
+				t.rows[(k+1)%len(t.rows)] = map[string]any{"id": float64(99)}
+			}
+		}
 		doc := map[string]any{"t": t.rows}
 		var tags []string
 		items := genItems(r, t, 4, &tags)
+		if r.Chance(15) {
+			// arithmetic whose operands are literals and a CASE with literal branches but a row-dependent condition
+			cond := Cmp(Pick(r, cmpOps), Col(Pick(r, t.numCols)), Num(t.numConst(r)))
+			cs := &Expr{K: "case", Whens: [][2]*Expr{{cond, Num(float64(10 + r.Intn(3)))}}, Else: Num(float64(20 + r.Intn(3)))}
+			if r.Bool() {
+				cs.Else = nil
+			}
+			items = append(items, Item{E: Bin(Pick(r, []string{"*", "+", "-"}), cs, Num(2)), Alias: "cv"})
+			tags = append(tags, "item:case-literal-arith")
+		}
 		q := &Stmt{From: &From{K: "table", Path: []string{"t"}}, Items: items}
 		if r.Chance(30) {
 			var sub []string
@@ -431,15 +449,27 @@ func genC08(r *Rand, tier string) []Case {
 		var tags []string
 		tags = append(tags, fmt.Sprintf("nest:%d", depth+1))
 		q := &Stmt{From: &From{K: "table", Path: []string{"n"}}}
+		doc["thr"] = t.numConst(r)
+		doc["vals"] = []any{map[string]any{"v": t.numConst(r)}, map[string]any{"v": t.numConst(r)}}
 		if r.Chance(70) {
 			var sub []string
 			q.Where = genPred(r, t, 2, &sub)
 			for _, s := range sub {
-				if s == "op:in-subquery" {
+				if s == "op:in-subquery" || s == "op:notin-subquery" {
 					q.Where = Cmp(">", Col("n1"), Num(t.numConst(r)))
 				}
 			}
 			tags = append(tags, "where")
+			if r.Chance(30) {
+				// the predicate navigates back to the root document from inside the inner arrays
+				switch r.Intn(2) {
+				case 0:
+					q.Where = Cmp(Pick(r, cmpOps), Col(Pick(r, t.numCols)), Col("<-", "thr"))
+				default:
+					q.Where = &Expr{K: "insub", A: Col(Pick(r, t.numCols)), Q: &Stmt{From: &From{K: "table", Path: []string{"<-", "vals"}}, Items: []Item{{E: Col("v")}}}}
+				}
+				tags = append(tags, "where:back-navigation")
+			}
 		}
 		if r.Chance(12) {
 			// whole-table aggregates inside every inner dimension
@@ -456,6 +486,19 @@ func genC08(r *Rand, tier string) []Case {
 			tags = append(tags, "mix")
 		}
 		out = append(out, mkCase(doc, q, tags, true))
+	}
+	// a few documents with LARGE inner arrays next to small ones: each inner result must stay at its position
+	for i := 0; i < 2; i++ {
+		var nested []any
+		for _, size := range [][]int{{300, 2, 0, 260, 1}, {1, 257, 3, 300}}[i] {
+			inner := make([]any, size)
+			for j := range inner {
+				inner[j] = map[string]any{"id": float64(j), "n1": float64(j % 5)}
+			}
+			nested = append(nested, inner)
+		}
+		q := &Stmt{From: &From{K: "table", Path: []string{"n"}}, Items: []Item{{E: Col("id")}}, Where: Cmp("<", Col("n1"), Num(float64(1+i)))}
+		out = append(out, mkCase(map[string]any{"n": nested}, q, []string{"large-inner-arrays"}, true))
 	}
 	return out
 }
